@@ -85,10 +85,14 @@ def handle (j : Json) : Except String Json := do
     let r0 : Runner := ⟨State.init cfg store, fun _ => 0⟩
     let (rEnd, outs) := picks.foldl (fun (acc : Runner × List Json) s =>
       let (r', out) := pick cfg progs acc.1 s
+      let crit : Json := match headCrit cfg acc.1.st s with
+        | none => .null
+        | some (o, l) => Json.mkObj [("o", jNat o), ("cols", .arr (l.map (fun (a, v) =>
+            Json.arr #[jNat a, match v with | none => .null | some x => jInt x])).toArray)]
       let js := match out with
         | none => Json.mkObj [("res", "done")]
         | some o => Json.mkObj (resJson o.res ++ [("upd", match o.upd with | none => .null | some x => jNat x),
-                     ("snap", snapJson attrs objs (r'.st.sess s)), ("lock", optSid r'.st.lock), ("pre", optSid r'.st.preLock)])
+                     ("snap", snapJson attrs objs (r'.st.sess s)), ("lock", optSid r'.st.lock), ("pre", optSid r'.st.preLock), ("crit", crit)])
       (r', js :: acc.2)) (r0, [])
     let final := objs.flatMap (fun o => attrs.map (fun a => Json.arr #[jNat o, jNat a, jInt (rEnd.st.store o a)]))
     pure (Json.mkObj [("steps", .arr outs.reverse.toArray), ("store", .arr final.toArray),
